@@ -30,6 +30,7 @@ def run(ctx):
     core.run_slices(ctx, [
         (3, lambda: w_alg.drive_merge_laws(ctx, ctx.tier)),
         (6, lambda: w_alg.drive_merge(ctx, ctx.tier, want='aligned')),
+        (2, lambda: w_alg.drive_merge(ctx, 'quick', want='aligned', pool=w_alg.MetaPool(ctx.rng('c09-meta')))),
         (1, lambda: w_misc.drive_session(ctx, ctx.tier))])    # long-lived signature objects through many operations
 
 
